@@ -223,10 +223,198 @@ def canon(node):
     return _Canon().visit(node)
 
 
+PURE_CALLS = {"len", "abs", "min", "max", "float", "int", "bool", "str", "tuple", "list", "np.abs", "np.equal", "np.array", "np.asarray",
+              "np.ravel", "np.shape", "np.any", "np.all", "np.nonzero", "np.flatnonzero", "np.where", "np.arange", "np.sum", "isinstance",
+              "np.logical_and", "np.logical_or", "np.logical_not", "np.isnan", "np.max", "np.argmax", "sorted", "round"}
+
+
+MODULE_PURE = {}        # relpath -> names of module-level functions inferred pure
+_cur_rel = [None]
+STR_METHODS = {"replace", "format", "join", "strip", "lstrip", "rstrip", "split", "startswith", "endswith", "lower", "upper", "get", "items",
+               "keys", "values", "tolist", "copy", "astype", "ravel", "reshape", "index", "count"}
+
+
+def _pure_function(fn):
+    """a module-level function is pure if it only binds its own locals, and calls nothing but pure builtins / str methods"""
+    params = set(_params(fn))
+    for x in ast.walk(fn):
+        if isinstance(x, (ast.Global, ast.Nonlocal, ast.Yield, ast.YieldFrom, ast.Raise, ast.With, ast.Try, ast.Delete)):
+            return False
+        if isinstance(x, (ast.Attribute, ast.Subscript)) and isinstance(x.ctx, (ast.Store, ast.Del)):
+            return False
+        if isinstance(x, ast.Call):
+            f = chain_text(x.func)
+            if f in PURE_CALLS:
+                continue
+            if isinstance(x.func, ast.Attribute) and x.func.attr in STR_METHODS:
+                continue
+            return False
+    return True
+
+
+def _pure(e):
+    """side-effect free expression built from names, attributes, subscripts, constants, operators and a few pure calls"""
+    for x in ast.walk(e):
+        if isinstance(x, ast.Call):
+            f = chain_text(x.func)
+            if f not in PURE_CALLS and f not in MODULE_PURE.get(_cur_rel[0], ()):
+                return False
+        elif isinstance(x, (ast.Lambda, ast.Yield, ast.YieldFrom, ast.Await, ast.NamedExpr, ast.Starred, ast.ListComp, ast.SetComp,
+                            ast.DictComp, ast.GeneratorExp)):
+            return False
+    return True
+
+
+def _reads(e):
+    """names and attribute chains read by expression e"""
+    out = set()
+    for x in ast.walk(e):
+        if isinstance(x, ast.Name):
+            out.add(x.id)
+        elif isinstance(x, ast.Attribute):
+            t = chain_text(x)
+            if t:
+                out.add(t)
+    return out
+
+
+def _written(fn):
+    """names and attribute chains stored anywhere in fn (subscript stores count as writes to their base)"""
+    out = set()
+    for x in _ordered(fn):
+        tg = []
+        if isinstance(x, ast.Assign):
+            tg = x.targets
+        elif isinstance(x, (ast.AugAssign, ast.AnnAssign)):
+            tg = [x.target]
+        elif isinstance(x, (ast.For, ast.comprehension)):
+            tg = [x.target]
+        elif isinstance(x, ast.Delete):
+            tg = x.targets
+        for t in tg:
+            for y in ast.walk(t):
+                if isinstance(y, (ast.Name, ast.Attribute)):
+                    c = chain_text(y)
+                    if c:
+                        out.add(c)
+        if isinstance(x, ast.Call) and isinstance(x.func, ast.Attribute) and x.func.attr in (
+                "append", "extend", "update", "pop", "clear", "insert", "remove", "sort", "fill", "put", "ipadd", "ipset"):
+            c = chain_text(x.func.value)
+            if c:
+                out.add(c)
+    return out
+
+
+class _SubstExpr(ast.NodeTransformer):
+    def __init__(self, name, expr):
+        self.name, self.expr = name, expr
+        self.n = 0
+
+    def visit_Name(self, n):
+        if isinstance(n.ctx, ast.Load) and n.id == self.name:
+            self.n += 1
+            return ast.copy_location(copy.deepcopy(self.expr), n)
+        return n
+
+    def _scope(self, n):
+        return n
+    visit_FunctionDef = visit_AsyncFunctionDef = visit_Lambda = visit_ClassDef = _scope
+
+
+def propagate_new_locals(fn, known, max_remove=0, last_first=False):
+    """copy propagation of locals that the pinned tree does not have (`known` = its locals and aliases): a local bound exactly once,
+    by a plain assignment in some statement list, to a pure expression whose operands the function never writes, and read only in
+    the statements that follow it in the same list, is replaced by that expression at every read.  Returns the number removed."""
+    removed = 0
+    for _round in range(8):
+        if max_remove and removed >= max_remove:
+            break
+        stores = {}
+        for x in _ordered(fn):
+            if isinstance(x, ast.Name) and isinstance(x.ctx, (ast.Store, ast.Del)):
+                stores[x.id] = stores.get(x.id, 0) + 1
+            if isinstance(x, ast.AugAssign) and isinstance(x.target, ast.Name):
+                stores[x.target.id] = stores.get(x.target.id, 0) + 1
+        written = _written(fn)
+        params = set(_params(fn))
+        done = False
+
+        def blocks(node):
+            for name in ("body", "orelse", "finalbody"):
+                b = getattr(node, name, None)
+                if isinstance(b, list) and b and isinstance(b[0], ast.stmt):
+                    yield b
+            for h in getattr(node, "handlers", []) or []:
+                yield h.body
+        stack = [fn]
+        cands = []
+        while stack:
+            node = stack.pop()
+            for b in blocks(node):
+                for k, st in enumerate(b):
+                    if not isinstance(st, SCOPES):
+                        stack.append(st)
+                    if not (isinstance(st, ast.Assign) and len(st.targets) == 1 and isinstance(st.targets[0], ast.Name)):
+                        continue
+                    v = st.targets[0].id
+                    if v in known or v in params or stores.get(v, 0) != 1 or v.startswith("__"):
+                        continue
+                    if isinstance(st.value, (ast.Constant,)) and not isinstance(st.value.value, (int, float, str, bool, type(None))):
+                        continue
+                    if not _pure(st.value):
+                        continue
+                    rd = _reads(st.value)
+                    # operands must not be written between the definition and the uses (all uses follow in this block)
+                    after = ast.Module(body=b[k + 1:], type_ignores=[])
+                    written = _written(after)
+                    if v in written or any(w.startswith(v + ".") for w in written):
+                        continue        # the local itself is mutated (append, item store ...): not a value
+                    if isinstance(st.value, (ast.List, ast.Dict, ast.Set)) and not st.value.__dict__.get("elts", st.value.__dict__.get("keys")):
+                        continue        # empty container literal: an accumulator, identity matters
+                    if v in rd or any(r == w or r.startswith(w + ".") or w.startswith(r + ".") for r in rd for w in written if w != v):
+                        continue
+                    # every read of v lies in the statements after st in this block
+                    total = sum(1 for x in ast.walk(fn) if isinstance(x, ast.Name) and x.id == v and isinstance(x.ctx, ast.Load))
+                    inside = sum(1 for s2 in b[k + 1:] for x in ast.walk(s2) if isinstance(x, ast.Name) and x.id == v and isinstance(x.ctx, ast.Load))
+                    if total == 0 or total != inside:
+                        continue
+                    # not captured by a nested scope
+                    if any(isinstance(y, SCOPES) and any(isinstance(z, ast.Name) and z.id == v for z in ast.walk(y)) for s2 in b[k + 1:] for y in ast.walk(s2)):
+                        continue
+                    cands.append((getattr(st, "lineno", 0), b, st, v))
+        if cands:
+            cands.sort(key=lambda c: c[0], reverse=last_first)
+            _ln, b, st, v = cands[0]
+            k = next(i for i, x in enumerate(b) if x is st)
+            sub = _SubstExpr(v, st.value)
+            b[k + 1:] = [sub.visit(s2) for s2 in b[k + 1:]]
+            del b[k]
+            removed += 1
+            done = True
+        if not done:
+            break
+    if removed:
+        ast.fix_missing_locations(fn)
+    return removed
+
+
 def normalise_function(fn, rel, qual):
     """in-place normalisation of one function; registers ownership of its nodes"""
     base = baseline().get(rel, {}).get(qual)
     locs, aliases = analyse(fn)
+    fbase0 = baseline().get(rel, {})
+    if "__functions__" in fbase0 and (qual in fbase0["__functions__"]):
+        # locals the pinned tree does not have: if there are MORE new non-alias locals than vanished ones, some of them are
+        # additions (not renames); pure ones are propagated (last defined first) until the counts allow a one-to-one rename-back
+        known0 = set((base or {}).get("locals", [])) | set((base or {}).get("aliases", {}))
+        for _k in range(12):
+            new_l0 = [n for n in locs if n not in known0]
+            gone_l0 = [n for n in (base or {}).get("locals", []) if n not in locs and n not in aliases]
+            if len(new_l0) <= len(gone_l0):
+                break
+            if not propagate_new_locals(fn, known0 | set(aliases), max_remove=1, last_first=True):
+                break
+            locs, aliases = analyse(fn)
     # 2. rename-back (before substitution so that alias names are aligned too)
     if base:
         b_all = base["locals"] + list(base["aliases"])
@@ -253,6 +441,12 @@ def normalise_function(fn, rel, qual):
             r = _Rename(mapping)
             fn.body = [r.visit(s) for s in fn.body]
             locs, aliases = analyse(fn)
+    # 1b. copy propagation of pure locals the pinned tree does not have
+    fbase = baseline().get(rel, {})
+    if "__functions__" in fbase and (qual in fbase["__functions__"]):
+        known = set((base or {}).get("locals", [])) | set((base or {}).get("aliases", {}))
+        if propagate_new_locals(fn, known):
+            locs, aliases = analyse(fn)
     # 1. copy propagation
     if aliases:
         s = _Subst(aliases)
@@ -267,7 +461,232 @@ def normalise_function(fn, rel, qual):
     return locs, aliases
 
 
+class _GiveUp(Exception):
+    pass
+
+
+def _has_return(node):
+    return any(isinstance(x, ast.Return) for x in ast.walk(node) if not isinstance(x, SCOPES) or x is node)
+
+
+def _single_exit(stmts, retvar):
+    """statement list with `return`s -> equivalent list without: code after an `if` whose branch returns moves into the other
+    branch; `return v` becomes `retvar = v`.  Returns (stmts, always_returns).  Returns inside loops/try/with: _GiveUp."""
+    out = []
+    for i, st in enumerate(stmts):
+        if isinstance(st, ast.Return):
+            if retvar is not None:
+                val = st.value if st.value is not None else ast.Constant(value=None)
+                out.append(ast.copy_location(ast.Assign(targets=[ast.Name(id=retvar, ctx=ast.Store())], value=val), st))
+            elif st.value is not None and not isinstance(st.value, (ast.Constant, ast.Name)):
+                out.append(ast.copy_location(ast.Expr(value=st.value), st))
+            return out, True
+        if isinstance(st, ast.If):
+            b, br = _single_exit(st.body, retvar)
+            o, orr = _single_exit(st.orelse, retvar)
+            if br or orr:
+                rest, rr = _single_exit(stmts[i + 1:], retvar)
+                if br and orr:
+                    new = ast.If(test=st.test, body=b or [ast.Pass()], orelse=o)
+                    out.append(ast.copy_location(new, st))
+                    return out, True
+                if br:
+                    new = ast.If(test=st.test, body=b or [ast.Pass()], orelse=o + rest)
+                else:
+                    new = ast.If(test=st.test, body=(b + rest) or [ast.Pass()], orelse=o)
+                out.append(ast.copy_location(new, st))
+                return out, rr
+            out.append(ast.copy_location(ast.If(test=st.test, body=b or [ast.Pass()], orelse=o), st))
+            continue
+        if not isinstance(st, SCOPES) and _has_return(st):
+            raise _GiveUp()
+        out.append(st)
+    return out, False
+
+
+_inl_counter = [0]
+
+
+def _inline_call(call, helper, is_method):
+    """(prelude statements, value expression or None) for one call of `helper`, or None when it cannot be inlined"""
+    a = helper.args
+    if a.vararg or a.kwarg or a.kwonlyargs or a.posonlyargs:
+        return None
+    if any(isinstance(x, ast.Starred) for x in call.args) or any(k.arg is None for k in call.keywords):
+        return None
+    if any(isinstance(x, (ast.Yield, ast.YieldFrom, ast.Await, ast.Global, ast.Nonlocal)) for x in ast.walk(helper)):
+        return None
+    params = [x.arg for x in a.args]
+    args = list(call.args)
+    if is_method:
+        if not params:
+            return None
+        bind = {params[0]: ast.Name(id="self", ctx=ast.Load())}
+        params = params[1:]
+    else:
+        bind = {}
+    defaults = dict(zip([x.arg for x in a.args][len(a.args) - len(a.defaults):], a.defaults))
+    for pn, av in zip(params, args):
+        bind[pn] = av
+    for k in call.keywords:
+        if k.arg not in params:
+            return None
+        bind[k.arg] = k.value
+    for pn in params:
+        if pn not in bind:
+            if pn in defaults:
+                bind[pn] = defaults[pn]
+            else:
+                return None
+    _inl_counter[0] += 1
+    tag = "__%s%d" % (helper.name.strip("_")[:12], _inl_counter[0])
+    body = copy.deepcopy(helper.body)
+    if body and isinstance(body[0], ast.Expr) and isinstance(body[0].value, ast.Constant) and isinstance(body[0].value.value, str):
+        body = body[1:]
+    tmp = ast.FunctionDef(name="__tmp", args=helper.args, body=body, decorator_list=[], lineno=helper.lineno)
+    stored = {x.id for x in _ordered(tmp) if isinstance(x, ast.Name) and isinstance(x.ctx, (ast.Store, ast.Del))}
+    prelude = []
+    subst = {}
+    for pn, av in bind.items():
+        simple = isinstance(av, (ast.Name, ast.Constant)) or chain_text(av) is not None
+        if simple and pn not in stored:
+            subst[pn] = av
+        else:
+            nm = pn + tag
+            prelude.append(ast.Assign(targets=[ast.Name(id=nm, ctx=ast.Store())], value=av, lineno=call.lineno))
+            subst[pn] = ast.Name(id=nm, ctx=ast.Load())
+            if pn in stored:
+                stored.discard(pn)
+                # the parameter is re-bound in the helper: rename it like a local
+    rename = {n: n + tag for n in stored if n not in bind}
+
+    class R(ast.NodeTransformer):
+        def visit_Name(self, n):
+            if n.id in rename:
+                n.id = rename[n.id]
+                return n
+            if n.id in subst and isinstance(n.ctx, ast.Load):
+                return ast.copy_location(copy.deepcopy(subst[n.id]), n)
+            if n.id in subst and isinstance(n.ctx, ast.Store) and isinstance(subst[n.id], ast.Name):
+                n.id = subst[n.id].id
+            return n
+
+        def visit_ExceptHandler(self, n):
+            if n.name in rename:
+                n.name = rename[n.name]
+            self.generic_visit(n)
+            return n
+    body = [R().visit(st) for st in body]
+    retvar = "__ret" + tag
+    try:
+        new, always = _single_exit(body, retvar)
+    except _GiveUp:
+        return None
+    uses_value = any(isinstance(x, ast.Name) and x.id == retvar for st in new for x in ast.walk(st))
+    if uses_value and not always:
+        prelude.append(ast.Assign(targets=[ast.Name(id=retvar, ctx=ast.Store())], value=ast.Constant(value=None), lineno=call.lineno))
+    return prelude + new, (ast.Name(id=retvar, ctx=ast.Load()) if uses_value else ast.Constant(value=None))
+
+
+def inline_new_helpers(tree, rel):
+    """un-extract: calls to functions that the pinned tree does not have (a private helper split off from an anchored function) are
+    replaced by the helper's body, so that the caller is analysed in the shape it had.  Only calls in statement position (expression
+    statement, right-hand side of an assignment, returned value, whole `if` test) are inlined; helpers with returns inside loops, with
+    *args/**kwargs, generators etc. are left as calls."""
+    fbase = baseline().get(rel)
+    if not fbase or "__functions__" not in fbase:
+        return 0
+    known = set(fbase["__functions__"])
+    mod_funcs = {n.name: n for n in tree.body if isinstance(n, ast.FunctionDef)}
+    n_inl = 0
+    for cls in [None] + [c for c in tree.body if isinstance(c, ast.ClassDef)]:
+        methods = {m.name: m for m in cls.body if isinstance(m, ast.FunctionDef)} if cls else {}
+        new_methods = {k: v for k, v in methods.items() if "%s.%s" % (cls.name, k) not in known} if cls else {}
+        new_funcs = {k: v for k, v in mod_funcs.items() if k not in known}
+        if not new_methods and not new_funcs:
+            continue
+        callers = list(methods.values()) if cls else list(mod_funcs.values())
+
+        def resolve(call):
+            f = call.func
+            if isinstance(f, ast.Attribute) and isinstance(f.value, ast.Name) and f.attr in new_methods:
+                h = new_methods[f.attr]
+                deco = {chain_text(d) for d in h.decorator_list}
+                if f.value.id == "self" and "staticmethod" not in deco:
+                    return h, True
+                if "staticmethod" in deco and (f.value.id in ("self", "cls") or (cls and f.value.id == cls.name)):
+                    return h, False
+                return None
+            if isinstance(f, ast.Name) and f.id in new_funcs:
+                return new_funcs[f.id], False
+            return None
+
+        for caller in callers:
+            key = (rel, ("%s.%s" % (cls.name, caller.name)) if cls else caller.name)
+            for _round in range(3):
+                changed = False
+
+                def visit_block(block):
+                    nonlocal changed
+                    i = 0
+                    while i < len(block):
+                        st = block[i]
+                        target_call = None
+                        if isinstance(st, ast.Expr) and isinstance(st.value, ast.Call):
+                            target_call = st.value
+                        elif isinstance(st, (ast.Assign, ast.AugAssign, ast.AnnAssign)) and isinstance(st.value, ast.Call):
+                            target_call = st.value
+                        elif isinstance(st, ast.Return) and isinstance(st.value, ast.Call):
+                            target_call = st.value
+                        elif isinstance(st, ast.If) and isinstance(st.test, ast.Call):
+                            target_call = st.test
+                        elif isinstance(st, ast.If) and isinstance(st.test, ast.UnaryOp) and isinstance(st.test.operand, ast.Call):
+                            target_call = st.test.operand
+                        r = resolve(target_call) if target_call is not None else None
+                        if r is not None and r[0] is not caller:
+                            res = _inline_call(target_call, r[0], r[1])
+                            if res is not None:
+                                pre, val = res
+                                for x in pre:
+                                    for y in ast.walk(x):
+                                        if not hasattr(y, "lineno"):
+                                            y.lineno = getattr(st, "lineno", 1)
+                                            y.col_offset = 0
+                                if isinstance(st, ast.Expr):
+                                    block[i:i + 1] = pre
+                                    i += len(pre)
+                                else:
+                                    if isinstance(st, ast.If):
+                                        if st.test is target_call:
+                                            st.test = val
+                                        else:
+                                            st.test.operand = val
+                                    else:
+                                        st.value = val
+                                    block[i:i] = pre
+                                    i += len(pre) + 1
+                                changed = True
+                                continue
+                        for name in ("body", "orelse", "finalbody"):
+                            b = getattr(st, name, None)
+                            if isinstance(b, list) and b and isinstance(b[0], ast.stmt) and not isinstance(st, SCOPES):
+                                visit_block(b)
+                        for h in getattr(st, "handlers", []) or []:
+                            visit_block(h.body)
+                        i += 1
+                visit_block(caller.body)
+                if not changed:
+                    break
+                n_inl += 1
+            ast.fix_missing_locations(caller)
+            for x in ast.walk(caller):
+                OWNER[id(x)] = key
+    return n_inl
+
+
 def normalise_module(tree, rel):
+    _cur_rel[0] = rel
+    MODULE_PURE[rel] = {n.name for n in tree.body if isinstance(n, ast.FunctionDef) and _pure_function(n)}
     for n in tree.body:
         if isinstance(n, (ast.FunctionDef, ast.AsyncFunctionDef)):
             normalise_function(n, rel, n.name)
@@ -275,6 +694,15 @@ def normalise_module(tree, rel):
             for m in n.body:
                 if isinstance(m, (ast.FunctionDef, ast.AsyncFunctionDef)):
                     normalise_function(m, rel, "%s.%s" % (n.name, m.name))
+    if inline_new_helpers(tree, rel):
+        # the inlined bodies may bring new pure locals / aliases of their own: normalise the callers once more
+        for n in tree.body:
+            if isinstance(n, (ast.FunctionDef, ast.AsyncFunctionDef)):
+                normalise_function(n, rel, n.name)
+            elif isinstance(n, ast.ClassDef):
+                for m in n.body:
+                    if isinstance(m, (ast.FunctionDef, ast.AsyncFunctionDef)):
+                        normalise_function(m, rel, "%s.%s" % (n.name, m.name))
 
 
 def pattern_aliases(node):
@@ -346,8 +774,11 @@ def make_baseline(repo_root):
                     for m in n.body:
                         if isinstance(m, (ast.FunctionDef, ast.AsyncFunctionDef)):
                             add(m, "%s.%s" % (n.name, m.name))
-            if ent:
-                out[rel] = ent
+            ent["__functions__"] = sorted(
+                [n.name for n in tree.body if isinstance(n, (ast.FunctionDef, ast.AsyncFunctionDef))] +
+                ["%s.%s" % (c.name, m.name) for c in tree.body if isinstance(c, ast.ClassDef) for m in c.body
+                 if isinstance(m, (ast.FunctionDef, ast.AsyncFunctionDef))])
+            out[rel] = ent
     return out
 
 
@@ -357,5 +788,6 @@ if __name__ == "__main__":
     b = make_baseline(root)
     with open(BASELINE_FILE, "w") as f:
         json.dump(b, f, indent=0, sort_keys=True)
-    print("baseline: %d files, %d functions, %d aliases" % (len(b), sum(len(v) for v in b.values()),
-                                                           sum(len(x["aliases"]) for v in b.values() for x in v.values())))
+    print("baseline: %d files, %d functions with locals, %d aliases" % (
+        len(b), sum(len([k for k in v if k != "__functions__"]) for v in b.values()),
+        sum(len(x["aliases"]) for v in b.values() for k, x in v.items() if k != "__functions__")))
